@@ -8,6 +8,7 @@ import (
 	"io"
 	"os"
 	"os/exec"
+	"path/filepath"
 	"strings"
 	"sync"
 	"time"
@@ -63,6 +64,7 @@ type Proxy struct {
 // StartProxy builds Manager + Server from the namespaces and serves on 127.0.0.1:0.
 // scratchPrefix names the temporary log directory (/tmp/<prefix>-*), removed by Close.
 func StartProxy(scratchPrefix string, nss ...*models.Namespace) (*Proxy, error) {
+	removeStaleScratch(scratchPrefix)
 	dir, err := os.MkdirTemp("", scratchPrefix+"-")
 	if err != nil {
 		return nil, err
@@ -114,6 +116,17 @@ func StartProxy(scratchPrefix string, nss ...*models.Namespace) (*Proxy, error) 
 		close(p.done)
 	}()
 	return p, nil
+}
+
+// removeStaleScratch deletes scratch directories of earlier runs that ended without Close
+// (engine error, killed process): /tmp/<prefix>-<digits> not modified for 30 minutes.
+func removeStaleScratch(prefix string) {
+	ms, _ := filepath.Glob(filepath.Join(os.TempDir(), prefix+"-[0-9]*"))
+	for _, m := range ms {
+		if fi, err := os.Stat(m); err == nil && fi.IsDir() && time.Since(fi.ModTime()) > 30*time.Minute {
+			os.RemoveAll(m)
+		}
+	}
 }
 
 // ReloadNamespace replaces a namespace by a freshly built one (two-phase reload of the
